@@ -330,6 +330,8 @@ func evalOp(f []string) string {
 				return "notexist"
 			case strings.Contains(err.Error(), "symlink target was absolute"):
 				return "abslink"
+			case strings.Contains(err.Error(), "too many levels of symbolic links"):
+				return "toomany"
 			}
 			return "err"
 		}
@@ -458,10 +460,23 @@ func oracleOp(f []string, scratch string) []finding {
 	fs := newFS(tree, "")
 	var out []finding
 	add := func(c, d string) { out = append(out, finding{c, d}) }
-	switch f[0] {
+	kind := f[0]
+	wdir := ""
+	if kind == "onodew" || kind == "onodec" {
+		// the same comparison through a view with a working directory: New(c, tree, wd) / ChangeDir(wd)
+		wdir = unhx(f[2])
+		if kind == "onodew" {
+			fs = newFS(tree, wdir)
+		} else {
+			fs = newFS(tree, "").ChangeDir(wdir)
+		}
+		f = []string{"onode", f[1], f[3]}
+		kind = "onode"
+	}
+	switch kind {
 	case "onode":
 		p := unhx(f[2])
-		real := filepath.Join(root, p)
+		real := filepath.Join(root, wdir, p)
 		li, lerr := os.Lstat(real)
 		si, serr := fs.Stat(p)
 		if lerr != nil {
@@ -471,10 +486,10 @@ func oracleOp(f []string, scratch string) []finding {
 			return out
 		}
 		if serr != nil {
-			if throughLinkedDir(tree, p) {
+			if throughLinkedDir(tree, filepath.Join(wdir, p)) {
 				add("path-through-symlinked-directory-not-resolved", fmt.Sprintf("%s: %v", p, serr))
 			} else {
-				add("stat-misses-existing-entry", fmt.Sprintf("%s: %v", p, serr))
+				add("stat-misses-existing-entry", fmt.Sprintf("wd %q, %s: %v", wdir, p, serr))
 			}
 			return out
 		}
@@ -495,13 +510,13 @@ func oracleOp(f []string, scratch string) []finding {
 				return out
 			}
 			if verr != nil {
-				if throughLinkedDir(tree, p) {
+				if throughLinkedDir(tree, filepath.Join(wdir, p)) {
 					add("path-through-symlinked-directory-not-resolved", fmt.Sprintf("%s: %v", p, verr))
 				} else {
-					add("read-fails-on-readable-file", fmt.Sprintf("%s: %v", p, verr))
+					add("read-fails-on-readable-file", fmt.Sprintf("wd %q, %s: %v", wdir, p, verr))
 				}
 			} else if string(rb) != string(vb) {
-				add("read-returns-wrong-content", p)
+				add("read-returns-wrong-content", fmt.Sprintf("wd %q, %s: view %q, tree %q", wdir, p, vb, rb))
 			}
 		default:
 			st, e2 := os.Stat(real)
@@ -652,7 +667,7 @@ func testfsClass(line string) string {
 // ---------------------------------------------------------------- worker process
 
 func workerMain() {
-	debug.SetMaxStack(16 << 20)
+	debug.SetMaxStack(1 << 20)
 	scratch := os.Args[2]
 	in := bufio.NewReaderSize(os.Stdin, 1<<20)
 	out := bufio.NewWriter(os.Stdout)
@@ -796,6 +811,8 @@ func wellShaped(op string) bool {
 		return len(f) == 6
 	case "onode", "olist":
 		return len(f) == 3
+	case "onodew", "onodec":
+		return len(f) == 4
 	case "opage":
 		return len(f) == 4
 	case "otestfs":
@@ -1068,7 +1085,38 @@ func main() {
 		return
 	}
 	g := r.Rng
-	nTrees := r.N(40, 500)
+	// fixed shapes first: a file of the same name at the root and under a sub-directory, and relative links in the
+	// sub-directory that point at either; read through views rooted at the sub-directory (New cleans the working
+	// directory, ChangeDir keeps it raw).  A link resolved relative to the view instead of the root reads the wrong bytes.
+	for _, sub := range []string{"sub", "a", "x y"} {
+		for _, fn := range []string{"foo", "é"} {
+			t := &Dir{
+				Files: []FileN{{fn, 1, 0}, {"other", 3, 0}},
+				Dirs: []DirE{{sub, &Dir{
+					Files: []FileN{{fn, 2, 0o644}},
+					Links: []LinkN{{"up", "../" + fn, 0}, {"same", fn, 0}, {"upother", "../other", 0}, {"chain", "up", 0}},
+					Dirs:  []DirE{{"deep", &Dir{Links: []LinkN{{"up2", "../../" + fn, 0}, {"up1", "../" + fn, 0}}}}},
+				}}},
+			}
+			ts := t.String()
+			r.Count("trees-same-name-at-root-and-in-wd")
+			for _, p := range []string{"up", "same", "upother", "chain", fn, "deep/up2", "deep/up1"} {
+				for _, k := range []string{"onodew", "onodec"} {
+					runOp(r, k+" "+ts+" "+hx(sub)+" "+hx(p))
+				}
+				runOp(r, "open "+ts+" "+hx(sub)+" "+hx(p))
+				runOp(r, "copen "+ts+" "+hx(sub)+" "+hx(p))
+				runOp(r, "stat "+ts+" "+hx(sub)+" "+hx(p))
+			}
+			runOp(r, "readdir "+ts+" "+hx(sub)+" "+hx(".")+" -1 1")
+			for _, p := range []string{"up1", "up2"} {
+				runOp(r, "onodew "+ts+" "+hx(sub+"/deep")+" "+hx(p))
+				runOp(r, "onodec "+ts+" "+hx(sub+"/deep")+" "+hx(p))
+			}
+			flushQueue(r)
+		}
+	}
+	nTrees := r.N(36, 300)
 	loopBudget := r.N(15, 200)
 	for i := 0; i < nTrees; i++ {
 		blob := 0
@@ -1082,7 +1130,17 @@ func main() {
 			r.Count("trees-with-duplicate-names")
 		}
 		wd := lib.Pick(g, []string{"", "", "", ".", "a", "a/..", "/", "./"})
-		for _, p := range queryPaths(g, root) {
+		if len(root.Dirs) > 0 && g.Chance(35) {
+			wd = lib.Pick(g, root.Dirs).Name
+		}
+		qs := queryPaths(g, root)
+		for _, p := range qs {
+			// seen from the working directory, when that is a directory of the tree
+			if strings.HasPrefix(p, wd+"/") && wd != "" {
+				qs = append(qs, strings.TrimPrefix(p, wd+"/"))
+			}
+		}
+		for _, p := range qs {
 			runOp(r, "find "+ts+" "+hx(wd)+" "+hx(p))
 			runOp(r, "stat "+ts+" "+hx(wd)+" "+hx(p))
 			runOp(r, "open "+ts+" "+hx(wd)+" "+hx(p))
@@ -1107,6 +1165,17 @@ func main() {
 			for _, p := range through {
 				r.Count("path-through-a-link-to-a-directory")
 				runOp(r, "onode "+ts+" "+hx(p))
+			}
+			for _, p := range ps {
+				if d := filepath.Dir(p); d != "." && g.Chance(60) {
+					// the entry seen from its own directory and from the top-level directory above it
+					top := strings.SplitN(p, "/", 2)[0]
+					rel, _ := filepath.Rel(top, p)
+					runOp(r, lib.Pick(g, []string{"onodew", "onodec"})+" "+ts+" "+hx(d)+" "+hx(filepath.Base(p)))
+					if top != d {
+						runOp(r, lib.Pick(g, []string{"onodew", "onodec"})+" "+ts+" "+hx(top)+" "+hx(rel))
+					}
+				}
 			}
 			runOp(r, "olist "+ts+" "+hx("."))
 			var walk func(d *Dir, prefix string)
